@@ -12,8 +12,8 @@
    Marshal writes. *)
 From Coq Require Import String.
 From GVL Require Import NList Wire.
-From GVG Require Import Consts.
-From GV_rtsp Require Import Model ProofsBase ProofsStream ProofsRound ProofsLimits ProofsB64 Examples.
+From GVG Require Import Consts Kern.
+From GV_rtsp Require Import B64Model Model ProofsBase ProofsStream ProofsRound ProofsLimits ProofsB64 Examples Bridge.
 Open Scope N_scope.
 
 (* ---- round trip ---- *)
@@ -188,3 +188,73 @@ Example C04_example_b64 :
   concat (map b64_encode [[97; 98]; [99; 100; 101]]) = [89; 87; 73; 61; 89; 50; 82; 108] /\
   breads [2; 1; 5; 5] (binit [[89; 87]; [73]; [61; 89; 50; 82]; [108]]) = ([[97; 98]; [99]; [100; 101]], BEof).
 Proof. exact (conj ex_b64_blocks ex_b64). Qed.
+
+(* ---- BRIDGE (tools/go2coq) ----
+   The integer kernels of pkg/base and internal/base64streamreader TRANSLATED from the Go source on this run are the
+   formulas of the model (named Go constants are free variables of the kernels, instantiated with GVG.Consts):
+   the Content-Length guard of body_p is  cl > rtspMaxBodySize ; the header counter test  count >= headerMaxEntryCount
+   is "no entry left" of the model's countdown; the limits handed to readBytesLimited are headerMaxKeyLength-1,
+   headerMaxValueLength, the three request limits and the literals 255 / 4 / 255 of response.go (req_p / resp_p ARE
+   their limit-parametrised copies instantiated with the translated limits); frame_p IS the frame parser written
+   with the translated magic test, 16-bit length and channel conversion (on bytes); Marshal of a frame writes the
+   translated byte(len >> 8), byte(len) and has the translated MarshalSize; the base64 reader's alignment test and
+   "second =" test are the model's. *)
+Theorem C04_rtsp_kernels_are_the_code :
+  (forall h n, clen_of h = CLVal n ->
+     body_p h = if k_rtsp_body_too_big (Z.of_N n) (Z.of_N rtsp_max_body) then fail else take_n n) /\
+  (forall count, (0 <= count <= Z.of_N rtsp_hdr_max_entries)%Z ->
+     k_rtsp_hdr_full count (Z.of_N rtsp_hdr_max_entries) =
+     match Z.to_nat (Z.of_N rtsp_hdr_max_entries - count) with O => true | S _ => false end) /\
+  k_rtsp_hdr_key_limit (Z.of_N rtsp_hdr_max_key) = Z.of_N (rtsp_hdr_max_key - 1) /\
+  k_rtsp_hdr_val_limit (Z.of_N rtsp_hdr_max_value) = Z.of_N rtsp_hdr_max_value /\
+  (forall uok, req_p uok = req_p_with (Z.to_N (k_rtsp_req_method_limit (Z.of_N rtsp_req_max_method)))
+                                      (Z.to_N (k_rtsp_req_url_limit (Z.of_N rtsp_req_max_url)))
+                                      (Z.to_N (k_rtsp_req_proto_limit (Z.of_N rtsp_req_max_proto))) uok) /\
+  resp_p = resp_p_with (Z.to_N k_rtsp_res_proto_limit) (Z.to_N k_rtsp_res_code_limit) (Z.to_N k_rtsp_res_text_limit) /\
+  (forall l, Forall byteN (ntake 4 l) -> frame_p l = frame_p_k l) /\
+  (forall ch p, nlen p < 9223372036854775804 ->
+     marshal (Frame ch p) =
+       [36; ch mod 256; Z.to_N (k_rtsp_frame_len_hi (Z.of_N (nlen p))); Z.to_N (k_rtsp_frame_len_lo (Z.of_N (nlen p)))] ++ p
+     /\ Z.of_N (nlen (marshal (Frame ch p))) = k_rtsp_frame_size (Z.of_N (nlen p))) /\
+  (forall n, k_b64_unaligned (Z.of_N n) = negb ((n / 4) * 4 =? n)) /\
+  (forall len i c, i < 9223372036854775807 ->
+     k_b64_second_pad (Z.of_N len) (Z.of_N i) (Z.of_N c) = ((i + 1 <? len) && (c =? 61))).
+Proof. exact rtsp_kernels_are_the_code. Qed.
+Print Assumptions C04_rtsp_kernels_are_the_code.
+
+(* the header countdown and the key / value limits, tied to the model's loop: when the translated counter test fires
+   the loop (with that many entries left) fails, otherwise it has a successor; a key / value longer than the
+   translated limit is refused *)
+Theorem C04_rtsp_header_kernels_are_the_code :
+  (forall count b l, (0 <= count <= Z.of_N rtsp_hdr_max_entries)%Z -> b <> 13 ->
+     (k_rtsp_hdr_full count (Z.of_N rtsp_hdr_max_entries) = true ->
+        hdr_loop (Z.to_nat (Z.of_N rtsp_hdr_max_entries - count)) (b :: l) = Err) /\
+     (k_rtsp_hdr_full count (Z.of_N rtsp_hdr_max_entries) = false ->
+        exists left', Z.to_nat (Z.of_N rtsp_hdr_max_entries - count) = S left' /\
+                      Z.to_nat (Z.of_N rtsp_hdr_max_entries - (count + 1)) = left')) /\
+  (forall left b l,
+     let n := Z.to_N (k_rtsp_hdr_key_limit (Z.of_N rtsp_hdr_max_key)) in
+     b <> 13 -> n <= nlen l -> nodelim is_colon (ntake n l) -> hdr_loop left (b :: l) = Err) /\
+  (forall left b kr x v,
+     let n := Z.to_N (k_rtsp_hdr_val_limit (Z.of_N rtsp_hdr_max_value)) in
+     b <> 13 -> nodelim is_colon kr -> nlen kr < Z.to_N (k_rtsp_hdr_key_limit (Z.of_N rtsp_hdr_max_key)) -> x <> 32 ->
+     n <= nlen (x :: v) -> nodelim is_cr (ntake n (x :: v)) ->
+     hdr_loop (S left) (b :: kr ++ 58 :: x :: v) = Err).
+Proof.
+  split; [exact hdr_count_kernel_is_the_code|]. split; [exact hdr_key_limit_is_the_code|exact hdr_val_limit_is_the_code].
+Qed.
+Print Assumptions C04_rtsp_header_kernels_are_the_code.
+
+(* the translated kernels compute: a body of 131072 bytes is accepted, one more is not; the 256th header line is
+   refused; the key limit is 511; frame length 0x1234; a 70000-byte payload is declared as 0x1170 (the 16-bit
+   field wraps - C18 keeps payloads below that); 10 base64 characters are unaligned, 12 are not *)
+Example C04_example_kernels :
+  k_rtsp_body_too_big 131072 (Z.of_N rtsp_max_body) = false /\ k_rtsp_body_too_big 131073 (Z.of_N rtsp_max_body) = true /\
+  k_rtsp_hdr_full 254 (Z.of_N rtsp_hdr_max_entries) = false /\ k_rtsp_hdr_full 255 (Z.of_N rtsp_hdr_max_entries) = true /\
+  k_rtsp_hdr_key_limit (Z.of_N rtsp_hdr_max_key) = 511%Z /\
+  k_rtsp_res_proto_limit = 255%Z /\ k_rtsp_res_code_limit = 4%Z /\ k_rtsp_res_text_limit = 255%Z /\
+  k_rtsp_frame_len 18 52 = 4660%Z /\ k_rtsp_frame_bad_magic 36 (Z.of_N rtsp_frame_magic) = false /\
+  k_rtsp_frame_len_hi 70000 = 17%Z /\ k_rtsp_frame_len_lo 70000 = 112%Z /\ k_rtsp_frame_size 1460 = 1464%Z /\
+  k_b64_unaligned 10 = true /\ k_b64_unaligned 12 = false /\
+  k_b64_second_pad 8 6 61 = true /\ k_b64_second_pad 7 6 61 = false /\ k_b64_second_pad 8 6 65 = false.
+Proof. vm_compute. repeat split. Qed.
